@@ -290,8 +290,15 @@ func exprS(e hcl.Expression) S {
 	case *hclsyntax.LiteralValueExpr:
 		return T("lit", rangeS(x.Range()), Str(x.Val.Type().FriendlyName()))
 	case *hclsyntax.TemplateExpr:
-		ml := x.Range().Start.Line != x.Range().End.Line
-		return T("tmpl", rangeS(x.Range()), Bool(x.IsStringLiteral()), Bool(ml))
+		// second flag: every part is a string literal (what symbolExprKind calls a multi-line string literal)
+		allStr := len(x.Parts) >= 1
+		for _, part := range x.Parts {
+			lit, ok := part.(*hclsyntax.LiteralValueExpr)
+			if !ok || lit.Val.Type() != cty.String {
+				allStr = false
+			}
+		}
+		return T("tmpl", rangeS(x.Range()), Bool(x.IsStringLiteral()), Bool(allStr))
 	case *hclsyntax.TupleConsExpr:
 		l := List{}
 		for _, it := range x.Exprs {
